@@ -45,6 +45,25 @@ var c10Progs = []string{
 	`[a,b,3].minMax(x->x).max+[a,b].sum()`,
 	`numbers(3).map(i->numbers(2).map(j->i*a+j*b)).map(l->l.sum())`,
 	`let l=numbers(3).map(x->x*2); [l, l.reverse(), l.map(x->x+a)]`,
+	// call sites whose receiver/operand kinds depend on the arguments
+	`(if a<b then [a,b] else {k:a}).size()`,
+	`(if a<b then [a,b,a] else {k:a,j:b}).map(if a<b then (x->x+1) else ((k,v)->v+1))`,
+	`(if a<b then a else a*1.5)+(if a<b then b*0.5 else b)`,
+	`(if a<b then [a] else "s").size()+0`,
+	`let v=if a<b then [b,a] else [a]; v.first()+v.last()+v.size()`,
+	`(if a<b then {f:x->x+1} else {f:x->x*2,g:1}).f(b)`,
+	// constants used as operands of operators and methods that must not modify them
+	`[1,2] ~ [a,b,0]`,
+	`[[1,2] ~ [a,b,0], [a] ~ [1,2,3], a ~ [1,2,3], [1,2,3]=[a,b,3]]`,
+	`let c=[3,1,2]; [c.order(x->x*a), c.orderRev(x->x), c.reverse(), c.top(a%3), c.skip(a%3), c]`,
+	`let c=[3,1,2]; [c.set(a%3,b), c.append(a), c+[b], c.map(x->x+a), c.accept(x->x>a%4), c]`,
+	`let c=[3,1,2]; [c.combine((p,q)->p+q+a), c.iir(x->x,(x,l)->x+l+b), c.number((i,x)->i+x+a), c.compact((p,q)->p=a), c]`,
+	`let c=[3,1,2]; [c.minMax(x->x*a).max, c.sum()+a, c.reduce((p,q)->p*b+q), c.indexWhere(x->x=a%4), c.present(x->x=b), c.size()]`,
+	`let c=[1,2,2,3]; [c.groupByInt(x->x%2).size()+a, c.uniqueInt(x->x).size()+b, c.cross([a,b],(p,q)->p*q), c.merge([a,b],(p,q)->p<q), c]`,
+	`let m={k:1,j:2}; [m.put("z",a), m.replace(o->{k:b}), m.map((k,v)->v+a), m.accept((k,v)->v>a%3), m+{q:b}, m.list().size(), m]`,
+	`let m={k:1,j:2}; [m.k+a, m.get("j")+b, m.isAvail("k","z"), "k" ~ m, m.size(), m={j:2,k:a}]`,
+	`let s="abc"; [s.cut(a%4,1), s.len()+b, s+s, s.contains("b"), s=s]`,
+	`let f=x->x*2; let g=x->[x,f(x)]; [g(a), g(b), f(a)+f(b)]`,
 }
 
 func c10Jobs(tier string, seed int64) []string {
